@@ -435,6 +435,10 @@ func checkDerivedSite(p *packages.Package, fd *ast.FuncDecl, call *ast.CallExpr)
 
 func checkMirrorRetry(c *Ctx, r *Report) {
 	defer checkMirrorWhole(c, r)
+	defer func() {
+		checkQRInfoReadWhole(c, r)
+		r.DecidedByKeys("M-MIRROR", "S-INFOREADW", "the format and version words of a mirrored symbol are read from the transposed modules, bit by bit", "BitMatrixParser.copyBit")
+	}()
 	r.Rule("M-MIRROR", "qrcode/decoder.Decoder.Decode: the first success is returned unflagged; the retry re-masks the matrix, switches the parser to mirrored reading (which forgets the parsed version/format), re-reads version and format, transposes the matrix and decodes again - in that order, each step under `no error so far` - and its success is returned only after SetOther(NewQRCodeDecoderMetaData(true)); copyBit reads (j,i) when mirrored; Mirror swaps (x,y) with (y,x) over the upper triangle; both QR readers apply the mirrored correction to the points", 8)
 	fd, p := c.funcDeclOf("qrcode/decoder", "Decoder.Decode")
 	key := "qrcode/decoder.Decoder.Decode"
@@ -1101,6 +1105,7 @@ func checkOrientation(c *Ctx, r *Report) {
 
 // M-HINTFWD: the caller's hints reach every callee that takes hints
 func checkHintForwarding(c *Ctx, r *Report) {
+	defer checkOrientWhole(c, r) // decides the obligations on OneDReader.doDecode / Decode wherever this rule runs
 	r.Rule("M-HINTFWD", "in every reader and decoder function that has a decode-hints parameter, each call that passes decode hints on hands over that very parameter, a map built in the function (a filtered copy), or a choice between such values - never nil or some other map: a retry (mirrored QR reading, rotated or reversed attempts, per-reader dispatch) must decode under the hints the caller gave", 20)
 	isHints := func(t types.Type) bool {
 		m, ok := t.Underlying().(*types.Map)
